@@ -21,9 +21,11 @@ Fixpoint commits_eqb (a b : list Z) : bool :=
   | _, _ => false
   end.
 
-(* kyber: the share lies on the polynomial committed to inside the deal, which has t coefficients *)
+(* kyber (VerifyDeal): the share lies on the polynomial committed to inside the deal.  The NUMBER of
+   commitments is not compared with the threshold here (a dealer that announces and deals a
+   polynomial with more coefficients passes this check; kyber notices at the master-key step) *)
 Definition vss_ok (t : nat) (d : deal) (i : Z) : bool :=
-  Nat.eqb (length (dl_commits d)) t && (zr (dl_share d) =? eval_poly (dl_commits d) (i + 1)).
+  zr (dl_share d) =? eval_poly (dl_commits d) (i + 1).
 
 (* dc4bc: the commitments inside the deal are the ones the dealer broadcast *)
 Definition accepts (t : nat) (broadcast : list Z) (d : deal) (i : Z) : bool :=
@@ -39,7 +41,7 @@ Definition responses_result (t : nat) (deals : list (list Z * deal)) (i : Z) : s
   if forallb (fun bd => accepts t (fst bd) (snd bd) i) deals then ev_resp_ok else ev_resp_err.
 
 (* the fate of the round, as the FSM theorems give it: an error report cancels the phase *)
-Definition round_outcome (deviating complaint : bool) : string :=
-  if complaint then "state_dkg_master_key_await_canceled_by_error"
+Definition round_outcome (deviating at_master_key : bool) : string :=
+  if at_master_key then "state_dkg_master_key_await_canceled_by_error"
   else if deviating then "state_dkg_responses_await_canceled_by_error"
   else "stage_signing_idle".
